@@ -365,6 +365,12 @@ func c04Consts(t c04Type) []float64 {
 	return res
 }
 
+// c04IntLits: integer literals used as operands of float64 arithmetic.
+var c04IntLits = []struct {
+	s string
+	v float64
+}{{"0", 0}, {"1", 1}, {"2", 2}, {"(-1)", -1}, {"10", 10}}
+
 // c04ConstVal is the value Go gives the constant that c04Lit spells.
 func c04ConstVal(k float64) float64 { return k + 0 }
 
@@ -490,6 +496,20 @@ func c04Source(t c04Type) string {
 			for _, k := range []int{1, 5} {
 				w("func us_%s_%d(a %s, c int) %s { return a %s (%d << c) }", op.name, k, T, R, op.sym, k)
 				w("func usl_%s_%d(a %s, c int) %s { return (%d << c) %s a }", op.name, k, T, R, k, op.sym)
+			}
+		}
+	}
+	// integer literals next to a float64 operand (the literal takes the operand's type)
+	if t.float {
+		for i, il := range c04IntLits {
+			w("func fi_add_%d(a float64) float64 { return a + %s }", i, il.s)
+			w("func fi_sub_%d(a float64) float64 { return a - %s }", i, il.s)
+			w("func fi_rsub_%d(a float64) float64 { return %s - a }", i, il.s)
+			w("func fi_mul_%d(a float64) float64 { return a * %s }", i, il.s)
+			w("func fi_suba_%d(a float64) float64 { a -= %s; return a }", i, il.s)
+			w("func fi_adda_%d(a float64) float64 { a += %s; return a }", i, il.s)
+			if il.v != 0 {
+				w("func fi_div_%d(a float64) float64 { return a / %s }", i, il.s)
 			}
 		}
 	}
@@ -801,6 +821,19 @@ func (w *c04Worker) unaryAll(a float64) {
 		if x, ok := c04Conv(t, dt, a); ok {
 			w.call("cv_"+dt.name, dt, c04Want{num: x}, ex, va)
 			w.call("cvl_"+dt.name, dt, c04Want{num: x}, ex, va)
+		}
+	}
+	if t.float {
+		for i, il := range c04IntLits {
+			w.call(fmt.Sprintf("fi_add_%d", i), t, c04Bin(t, "add", a, il.v), []float64{a, il.v}, va)
+			w.call(fmt.Sprintf("fi_sub_%d", i), t, c04Bin(t, "sub", a, il.v), []float64{a, il.v}, va)
+			w.call(fmt.Sprintf("fi_rsub_%d", i), t, c04Bin(t, "sub", il.v, a), []float64{il.v, a}, va)
+			w.call(fmt.Sprintf("fi_mul_%d", i), t, c04Bin(t, "mul", a, il.v), []float64{a, il.v}, va)
+			w.call(fmt.Sprintf("fi_suba_%d", i), t, c04Bin(t, "sub", a, il.v), []float64{a, il.v}, va)
+			w.call(fmt.Sprintf("fi_adda_%d", i), t, c04Bin(t, "add", a, il.v), []float64{a, il.v}, va)
+			if il.v != 0 {
+				w.call(fmt.Sprintf("fi_div_%d", i), t, c04Bin(t, "div", a, il.v), []float64{a, il.v}, va)
+			}
 		}
 	}
 	for ki, k := range c04Consts(t) {
